@@ -134,6 +134,8 @@ impl ParseData for FromMetaOptions {
                 let word_variants: Vec<_> = data
                     .iter()
                     .filter_map(|variant| variant.word.as_ref())
+                    // `word = false` does not make the variant the word variant
+                    .filter(|word| ***word)
                     .collect();
 
                 if !word_variants.is_empty() {
